@@ -1,5 +1,6 @@
 import MirVerif.Lemmas.PPExpr
 import MirVerif.Lemmas.PPMacro
+import MirVerif.Lemmas.PPMacroFuel
 /-!
 # Property C09 — c2mir's preprocessor expands macros and evaluates `#if` as C11 requires
 
@@ -31,7 +32,8 @@ it is total (the definition is accepted by well-founded recursion on
 `(enabledCount defs dis, 2·|ts| + pending)` using `enabledCount_lt`, `collectArgs_len`);
 painted tokens are never replaced (`painted_never_expanded`); a macro name met while the macro is
 being replaced is painted (`disabled_name_painted`); arguments: `arg_preexpanded_once`;
-the code's `stringify`/`destringify` pair is lossless (`stringify_roundtrip`).
+the code's `stringify`/`destringify` pair: `stringify_roundtrip_partial` / `_fixed` (full statement false,
+see below).
 -/
 namespace MirVerif.PP
 
@@ -46,30 +48,6 @@ theorem eval_meets_c11_partial (fx : Fixes) (e : Expr)
 theorem eval_meets_c11_applied (e : Expr)
     (hclean : Clean appliedFixes e = true) (hdef : c11Eval e ≠ .undef) : c2mEval e = c11Eval e :=
   eval_partial appliedFixes e hclean hdef
-
-/-- every integer / character constant of the expression has a C11 type -/
-def LitsOk : Expr → Bool
-  | .lit l => c11Lit l != .undef
-  | .un _ a => LitsOk a
-  | .bin _ a b => LitsOk a && LitsOk b
-  | .cond c a b => LitsOk c && LitsOk a && LitsOk b
-
-theorem clean_allFixes (e : Expr) (h : LitsOk e = true) : Clean allFixes e = true := by
-  induction e with
-  | lit l =>
-    simp only [LitsOk] at h
-    cases l with
-    | int b n s => simp [Clean, litClean, allFixes, h]
-    | chr p c => cases p <;> simp [Clean, litClean, allFixes, h]
-  | un op a ih => cases op <;> simp_all [Clean, LitsOk, allFixes]
-  | bin op a b iha ihb =>
-    simp only [LitsOk, Bool.and_eq_true] at h
-    simp only [Clean, iha h.1, ihb h.2]
-    simp [allFixes]
-  | cond c a b ihc iha ihb =>
-    simp only [LitsOk, Bool.and_eq_true] at h
-    simp only [Clean, ihc h.1.1, iha h.1.2, ihb h.2]
-    simp [allFixes]
 
 /-- FULL statement for the code with all candidate repairs applied -/
 theorem eval_fixed_meets_c11 (e : Expr) (hl : LitsOk e = true) (hdef : c11Eval e ≠ .undef) :
@@ -173,22 +151,94 @@ theorem arg_preexpanded_once (raw exp : List (List Tok)) (i : Nat) (w : Ws) :
     substItems raw exp false [.str i w] = [.tok (stringifyArg w (raw.getD i []))] ∧
     substItems raw exp false [.param i w, .paste, .tok ⟨"x", .none, false⟩] =
       (if (raw.getD i []).isEmpty then [PItem.placemarker w] else insertArg w (raw.getD i [])) ++
-        [.pasteOp, .tok ⟨"x", .none, false⟩] := by
-  refine ⟨?_, ?_, ?_⟩
-  · simp [substItems, afterArg]
-  · simp [substItems]
-  · simp [substItems]
+        [.pasteOp, .tok ⟨"x", .none, false⟩] :=
+  subst_param_cases raw exp i w
 
-/-- the code's `stringify` (`c2mir.c:1778`) followed by `destringify` (`c2mir.c:1789`) is the identity -/
-theorem stringify_roundtrip (s : List Char) : destringify (stringify s) = s :=
-  stringify_roundtrip' s
+/-! `stringify` (`c2mir.c:1778`) / `destringify` (`c2mir.c:1789`).  Full statement
+
+    theorem stringify_roundtrip : ∀ s, destringifyC (stringify s) = s
+
+is FALSE for the code as it stands (`stringify_roundtrip_false_unrepaired`): after dropping an
+escaping backslash the loop re-examines the escaped character, so `\\\\` (two escaped backslashes)
+collapses to one.  The defect is latent (the only caller of `destringify` is `_Pragma`, whose
+accepted operands contain no backslash); known finding `C09:destringify-escape-pairs`, the
+correspondence check calls the two static functions on generated strings. -/
+
+/-- for strings in which no backslash is directly followed by `\` or `"` -/
+theorem stringify_roundtrip_partial (s : List Char) (h : noEscPair s = true) :
+    destringifyC (stringify s) = s := by
+  unfold destringifyC; rw [stripQuotes_stringify, destrLoop_escape s h]
+
+/-- FULL statement for `destringify` with `fixes/C09-destringify-escape-pairs.patch` -/
+theorem stringify_roundtrip_fixed (s : List Char) : destringifyFixed (stringify s) = s := by
+  unfold destringifyFixed; rw [stripQuotes_stringify, destrLoopFixed_escape]
+
+theorem stringify_roundtrip_false_unrepaired :
+    destringifyC (stringify ['a', '\\', '\\', 'b']) = ['a', '\\', 'b'] ∧
+    destringifyC (stringify ['\\', '"']) = ['"'] := by decide
 
 example : stringify "a\"b\\c".toList = "\"a\\\"b\\\\c\"".toList := by decide
+example : noEscPair "C:\\dir \"x\" \\n".toList = true := by decide
 
-/-- termination measure facts used by the definition of `expandList` -/
+/-- **termination of rescanning** (6.10.3.4), for every macro table — including self-referential and
+mutually recursive definitions — and every token list: the interpreter `expandFuel`, which follows
+the recursion equations of the expander literally but gives up (`none`) beyond recursion depth `n`,
+succeeds for every sufficiently large `n` and always with the same result, the value of the total
+function `expandList`. -/
+theorem expand_terminates (defs : Defs) (dis : List String) (pend : Option Tok) (ts : List Tok) :
+    ∃ n, ∀ m, n ≤ m → expandFuel defs m dis pend ts = some (expandList defs dis pend ts) :=
+  expandFuel_terminates defs dis pend ts
+
+/-- the measure that makes `expandList` a total function strictly decreases when a macro is entered -/
 theorem expand_terminates_measure {defs : Defs} {dis : List String} {n : String} {m : Macro}
     (h : lookup defs n = some m) (hd : dis.contains n = false) :
     enabledCount defs (n :: dis) < enabledCount defs dis :=
   enabledCount_lt h hd
+
+/-! ### the specification reproduces the C11 examples (evaluated by the kernel) -/
+
+private def tk (s : String) : Tok := { sp := s }
+private def tw (s : String) : Tok := { sp := s, ws := .space }
+private def mk (name : String) (ps : Option (List String)) (toks : List Tok) : Macro :=
+  ⟨name, ps, false, (mkRepl ps false toks).getD []⟩
+private def spellings (defs : Defs) (ts : List Tok) : Option (List String) :=
+  (expandFuel defs 60 [] none ts).map (fun o => (o.toks ++ o.pending.toList).map (·.sp))
+
+/-- `expandList` computed through the bounded interpreter -/
+theorem expandAll_of_fuel (defs : Defs) (ts : List Tok) (out : List String)
+    (h : spellings defs ts = some out) : (expandAll defs ts).1.map (·.sp) = out := by
+  unfold spellings at h
+  cases hf : expandFuel defs 60 [] none ts with
+  | none => simp [hf] at h
+  | some o =>
+    have := expandList_of_fuel defs 60 [] none ts o hf
+    simp [hf] at h
+    simp [expandAll, this, h]
+
+/-- DR 268 / 6.10.3.4: `#define f(a) a*g`, `#define g(a) f(a)`, `f(2)(9)` → `2*9*g` -/
+theorem spec_example_f2_9 :
+    (expandAll [mk "f" (some ["a"]) [tk "a", tk "*", tk "g"], mk "g" (some ["a"]) [tk "f", tk "(", tk "a", tk ")"]]
+      [tk "f", tk "(", tk "2", tk ")", tk "(", tk "9", tk ")"]).1.map (·.sp) = ["2", "*", "9", "*", "g"] :=
+  expandAll_of_fuel _ _ _ (by decide +kernel)
+
+/-- mutual recursion stops by painting: `#define AA BB`, `#define BB AA`, `AA BB` → `AA BB` -/
+theorem spec_example_mutual :
+    (expandAll [mk "AA" none [tk "BB"], mk "BB" none [tk "AA"]] [tk "AA", tw "BB"]).1.map (·.sp) = ["AA", "BB"] :=
+  expandAll_of_fuel _ _ _ (by decide +kernel)
+
+/-- 6.10.3.5 EXAMPLE 5 (placemarkers): `#define t(x,y,z) x ## y ## z`, `t(10,,)` → `10`, `t(,,)` → nothing -/
+theorem spec_example_placemarkers :
+    (expandAll [mk "t" (some ["x", "y", "z"]) [tk "x", tw "##", tw "y", tw "##", tw "z"]]
+      [tk "t", tk "(", tk "10", tk ",", tk ",", tk ")", tw "t", tk "(", tk ",", tk ",", tk ")", tk ";"]).1.map (·.sp)
+      = ["10", ";"] :=
+  expandAll_of_fuel _ _ _ (by decide +kernel)
+
+/-- 6.10.3.3 EXAMPLE (`hash_hash`): `join(x, y)` → `"x ## y"` -/
+theorem spec_example_hash_hash :
+    (expandAll [mk "hash_hash" none [tk "#", tw "##", tw "#"], mk "mkstr" (some ["a"]) [tk "#", tw "a"],
+                mk "in_between" (some ["a"]) [tk "mkstr", tk "(", tk "a", tk ")"],
+                mk "join" (some ["c", "d"]) [tk "in_between", tk "(", tk "c", tw "hash_hash", tw "d", tk ")"]]
+      [tk "join", tk "(", tk "x", tk ",", tw "y", tk ")"]).1.map (·.sp) = ["\"x ## y\""] :=
+  expandAll_of_fuel _ _ _ (by decide +kernel)
 
 end MirVerif.PP
